@@ -57,7 +57,7 @@ def truthy(I: Interp, v) -> bool:
         return I.path.branch(v.t != 0)
     if isinstance(v, SReal):
         return I.path.branch(v.t != 0)
-    if isinstance(v, (str, bytes, tuple, list, dict)):
+    if isinstance(v, (str, bytes, tuple, list, dict, set, frozenset)):
         return len(v) > 0
     if isinstance(v, SStr):
         return I.path.branch(z3.Length(v.t) > 0)
@@ -504,6 +504,16 @@ def getattr_(I: Interp, o, name: str):
             return Intrinsic("dict.values", lambda I_: list(o.values()))
     if isinstance(o, list) and name == "append":
         return Intrinsic("list.append", lambda I_, v: o.append(v))
+    if isinstance(o, list) and name == "pop":
+        def _pop(I_, i=-1):
+            if not o:
+                raise PyRaise(ExcVal("IndexError", ("pop from empty list",)))
+            return o.pop(i)
+        return Intrinsic("list.pop", _pop)
+    if isinstance(o, set) and name == "add":
+        return Intrinsic("set.add", lambda I_, v: o.add(v))
+    if isinstance(o, dict) and name == "update":
+        return Intrinsic("dict.update", lambda I_, d: o.update(d))
     raise Unsupported(f"attribute {name} of {o!r}")
 
 
@@ -534,6 +544,8 @@ def getslice(I: Interp, o, lo, hi):
 
 def iterate(I: Interp, v) -> List[Any]:
     if isinstance(v, (tuple, list)):
+        return list(v)
+    if isinstance(v, (set, frozenset)):
         return list(v)
     if isinstance(v, dict):
         return list(v.keys())
@@ -575,7 +587,7 @@ def _isinstance(I: Interp, v, c):
 
 
 def _len(I, v):
-    if isinstance(v, (tuple, list, str, bytes, dict)):
+    if isinstance(v, (tuple, list, str, bytes, dict, set, frozenset)):
         return len(v)
     if isinstance(v, SStr):
         return SInt(z3.Length(v.t))
@@ -634,6 +646,8 @@ def install(I: Interp):
     X["max"] = Intrinsic("max", lambda I_, *a: max(*a))
     X["all"] = Intrinsic("all", lambda I_, it: all(truthy(I_, x) for x in iterate(I_, it)))
     X["any"] = Intrinsic("any", lambda I_, it: any(truthy(I_, x) for x in iterate(I_, it)))
+    X["set"] = Intrinsic("set", lambda I_, it=(): set(iterate(I_, it)))
+    X["dict"] = Intrinsic("dict", lambda I_, it=(): dict(it) if isinstance(it, dict) else dict(iterate(I_, it)))
     X["object"] = I.external_class("object")
     for ext, short in (("decimal.Decimal", "Decimal"), ("fractions.Fraction", "Fraction"), ("Fraction", "Fraction"),
                        ("float", "float"), ("int", "int"), ("str", "str"), ("bytes", "bytes"), ("numbers.Number", "Number"),
